@@ -109,6 +109,11 @@ func cmdFn(args []string) int {
 			fmt.Sscanf(args[i], "%d", &timeout)
 		case "--macro":
 			specMacroMode = true
+		case "--bounded":
+			i++
+			fmt.Sscanf(args[i], "%d", &forceBounded)
+		case "--replay":
+			wantReplay = true
 		}
 	}
 	prog, err := LoadProg([]string{pkg})
@@ -169,6 +174,14 @@ func cmdFn(args []string) int {
 			bad++
 		}
 		fmt.Printf("%s %-60s %-8s %-7s %.2fs  %s\n", mark, o.Name, o.Result.Status, o.Result.Solver, o.Result.TimeS, truncate(o.Text, 70))
+		if !ok && wantReplay && o.Result.Status == "sat" && o.Kind != "cover" {
+			rr := tryReplay(&checkRun{prog: prog, known: &KnownFile{}}, o, o.Result.Model)
+			fmt.Printf("      replay: %s (%s)\n", rr.Outcome, rr.Detail)
+			if rr.Outcome != "skipped" {
+				fmt.Println(indentTail(rr.Test, 30))
+				fmt.Println(indentTail(rr.Output, 8))
+			}
+		}
 		if !ok && o.Result.Status == "error" {
 			fmt.Println("     ", truncate(o.Result.Output, 400))
 		}
@@ -207,4 +220,14 @@ func tinyWorld(q string) string {
 		}
 	}
 	return strings.Replace(q, "(check-sat)", strings.Join(extra, "\n")+"\n(check-sat)", 1)
+}
+
+var wantReplay bool
+
+func indentTail(s string, n int) string {
+	lines := strings.Split(strings.TrimSpace(s), "\n")
+	if len(lines) > n {
+		lines = lines[len(lines)-n:]
+	}
+	return "        " + strings.Join(lines, "\n        ")
 }
